@@ -228,8 +228,11 @@ Definition tbl_rollback (tb : table) : table :=
 (* xSync: read-only tables skip the storage commit; otherwise Commit to the bucket *)
 Definition tbl_sync (corder : list name) (tb : table) : prog row table :=
   if tb_ro tb then Ret tb
-  else bind (commit corder (tb_h tb)) (fun '(h', _) =>
-         Ret {| tb_h := h'; tb_tx := None; tb_ncols := tb_ncols tb; tb_ro := tb_ro tb |}).
+  else bind (commit corder (tb_h tb)) (fun '(h', r) =>
+         match r with
+         | COk _ => Ret {| tb_h := h'; tb_tx := None; tb_ncols := tb_ncols tb; tb_ro := tb_ro tb |}
+         | CFail e => Fail e
+         end).
 
 (* ---- Vacuum ---- *)
 (* time.Time{}.UnixNano() overflows int64 and wraps to this value *)
@@ -249,9 +252,13 @@ Definition vacuum_rows (cfg : KvProto.cfg) (h : rhandle) (before : time) : rhand
 Definition tbl_vacuum (cfg : KvProto.cfg) (corder : list name) (tb : table) (before : time) : prog row table :=
   let h1 := vacuum_rows cfg (tb_h tb) before in
   let h2 := kv_remove_tombstones h1 before in
-  bind (commit corder h2) (fun '(h3, _) =>
-    let tb' := {| tb_h := h3; tb_tx := tb_tx tb; tb_ncols := tb_ncols tb; tb_ro := tb_ro tb |} in
-    bind (delete_historic cfg h3 before) (fun _ => Ret tb')).
+  bind (commit corder h2) (fun '(h3, r) =>
+    match r with
+    | CFail e => Fail e
+    | COk _ =>
+        let tb' := {| tb_h := h3; tb_tx := tb_tx tb; tb_ncols := tb_ncols tb; tb_ro := tb_ro tb |} in
+        bind (delete_historic cfg h3 before) (fun _ => Ret tb')
+    end).
 
 (* ---- connection attributes (S3DBConn) ---- *)
 Record conn := {
